@@ -155,8 +155,13 @@ def gen_config(rng, profile="any", tier="quick"):
         n_market = max(2, n_market - rng.randrange(1, 4))           # data end before the backtest does
     if cfg["adjust"] is False and profile in ("C14", "any") and rng.random() < 0.5:
         faults.append("empty_cell")
+    jump_p = 0.0
+    if profile in ("C08", "any") and not cfg["long_only"] and rng.random() < 0.3:
+        # a leveraged book in a market that gaps: equity can go through zero between two rebalances
+        cfg["leverage"] = rng.choice([3.0, 5.0, 8.0])
+        jump_p = rng.choice([0.05, 0.1, 0.2])
     market = mk.gen_market(rng, n_assets, md0, n_market, adjust=cfg["adjust"], faults=faults,
-                           low_priced_p=0.3 if profile == "C08" else 0.15)
+                           low_priced_p=0.3 if profile == "C08" else 0.15, jump_p=jump_p)
     if rng.random() < 0.12 and profile != "C07":
         # a second listing of the first symbol in the same directory, with other prices; it is nobody's data
         base = market["assets"][syms[0]]["rows"]
@@ -256,6 +261,12 @@ def gen_config(rng, profile="any", tier="quick"):
     else:
         alpha["lookback"] = rng.choice([2, 3, 5, 8, 12])
     cfg["alpha"] = alpha
+    if alpha["kind"] in ("topn", "sma", "invvol") and profile in ("C16", "any") and rng.random() < 0.3:
+        # the signals collection is built on a data handler of its own (the other price adjustment), the session
+        # is given a different one explicitly: signals must keep seeing the closes of THEIR handler
+        cfg["signals_adjust"] = not cfg["adjust"]
+        if cfg["data_via"] == "env":
+            cfg["data_via"] = "handler_listdir"
     # ---- burn-in --------------------------------------------------------------------------
     r = rng.random()
     p_burn = 0.6 if profile == "C14" else 0.3
@@ -269,7 +280,9 @@ def gen_config(rng, profile="any", tier="quick"):
             cfg["burn_in"] = rng.choice(sched) + 60
         elif r2 < 0.7:
             dd = rng.randrange(d0, d1 + 1)
-            cfg["burn_in"] = dd * DAY + OPEN_S
+            # any time of day, the boundary ones in particular (the last minute of the day lies after the end's 23:59)
+            cfg["burn_in"] = dd * DAY + rng.choice([OPEN_S, OPEN_S, 0, 1, OPEN_S - 1, OPEN_S + 1, CLOSE_S - 1, CLOSE_S,
+                                                    CLOSE_S + 1, 86340, 86370, 86399])
         elif r2 < 0.9:
             cfg["burn_in"] = start + rng.randrange(0, max(1, end - start))
         else:
@@ -598,7 +611,11 @@ def build_session(cfg, dirpath, shared_source=None, shared_inputs=None):
             sigs = {"sma": SMASignal(S, universe, lookbacks=[a["short"], a["long"]])}
         else:
             sigs = {"vol": VolatilitySignal(S, universe, lookbacks=[a["lookback"]])}
-        signals = SignalsCollection(sigs, data_handler)
+        if cfg.get("signals_adjust") is not None:
+            sig_src = CSVDailyBarDataSource(dirpath, Equity, adjust_prices=cfg["signals_adjust"])
+            signals = SignalsCollection(sigs, BacktestDataHandler(universe, data_sources=[sig_src]))
+        else:
+            signals = SignalsCollection(sigs, data_handler)
     if shared_inputs is not None:
         shared_inputs.setdefault("universe", universe)
     if shared_inputs is not None and "alpha" in shared_inputs and signals is None:
@@ -648,6 +665,8 @@ def run_session(cfg, market, monitors=True, dirpath=None, shared_source=None, ho
                 shared_inputs=None):
     """Run one real backtest.  Returns an Outcome with everything the oracles look at."""
     import gc
+    from .core import apply_host_state
+    apply_host_state(cfg)
     gc.collect()        # whatever an earlier, already dropped session left behind is reclaimed now, not "sometime"
     from qstrader.execution import order as _order_mod
     real_uuid = _order_mod.uuid
